@@ -165,6 +165,19 @@ def make_pairs(tier, rng):
         j2["meta"] = j["meta"]
         declared.append((j2, "declared-edges/" + tag))
     pairs += declared
+    # the same loops SEEDED THROUGH bind(): the bound seed starts the cycle, the loop's own output replaces it from then on
+    seeded = []
+    for j, tag in pairs:
+        if tag.startswith(("explicit-edges/", "declared-edges/")) or "/nested/" in tag or not j["provided"] or rng.random() > (0.4 if thorough else 0.1):
+            continue
+        if j["meta"]["n_cont"] < 1:
+            continue        # a loop that never iterates returns its PROVIDED seed; a bound seed that nothing re-produced is not a result
+        p2 = copy.deepcopy(j["prog"])
+        p2["bound"] = [list(x) for x in j["provided"]]
+        j2 = gen.job(0, p2, [], mode=j["mode"])
+        j2["meta"] = j["meta"]
+        seeded.append((j2, "seeded-by-bind/" + tag))
+    pairs += seeded
     for i, (j, _) in enumerate(pairs):
         j["id"] = i + 1
     return pairs
